@@ -63,7 +63,9 @@ RotZ(k) == << <<CosK(k), -SinK(k), 0>>, <<SinK(k), CosK(k), 0>>, <<0, 0, 1>> >>
 RotY(k) == << <<CosK(k), 0, SinK(k)>>, <<0, 1, 0>>, <<(IF DevImproper THEN SinK(k) ELSE -SinK(k)), 0, CosK(k)>> >>
 RotX(k) == << <<1, 0, 0>>, <<0, CosK(k), -SinK(k)>>, <<0, SinK(k), CosK(k)>> >>
 \* rotate_xyz(obj, theta_x, theta_y, theta_z) = rot_z * rot_y * rot_x * obj
-RotOf(k) == AsTuple(MatMul(MatMul(RotZ(k[3]), RotY(k[2])), RotX(k[1])))
+RotCalc(k) == AsTuple(MatMul(MatMul(RotZ(k[3]), RotY(k[2])), RotX(k[1])))
+RotTab == [k \in Angles |-> RotCalc(k)]   \* constant-level, evaluated once by TLC
+RotOf(k) == RotTab[k]
 
 (* ---------------------------------------------------------------- templates *)
 Names(ty) == TypeDefs[ty].names
@@ -71,7 +73,9 @@ NAt(ty) == Len(Names(ty))
 NameSet(ty) == {Names(ty)[i] : i \in 1..NAt(ty)}
 SumU(ty) == VSumSeq([i \in 1..NAt(ty) |-> TypeDefs[ty].u[Names(ty)[i]]], NAt(ty))
 \* template vector (from the centre of geometry) times L:  L * (u - sum/n) = (L/n) * (n*u - sum)
-TN(ty, nm) == VScale(L \div NAt(ty), VSub(VScale(NAt(ty), TypeDefs[ty].u[nm]), SumU(ty)))
+TNCalc(ty, nm) == VScale(L \div NAt(ty), VSub(VScale(NAt(ty), TypeDefs[ty].u[nm]), SumU(ty)))
+TNTab == [ty \in DOMAIN TypeDefs |-> [nm \in NameSet(ty) |-> TNCalc(ty, nm)]]   \* constant-level, evaluated once by TLC
+TN(ty, nm) == TNTab[ty][nm]
 
 AtomsOf(m) == UNION { { <<r, Names(m[r].type)[i]>> : i \in 1..NAt(m[r].type) } : r \in 1..Len(m) }
 Den == L * fud[2]
@@ -79,12 +83,12 @@ Den == L * fud[2]
 Init == /\ mol \in Mols /\ fud \in Fudges
         /\ placed = 0 /\ done = {} /\ built = <<>>
         /\ pos = [a \in AtomsOf(mol) |-> Zero]
-        /\ last = [op |-> "init", r |-> 0, k |-> <<0, 0, 0>>]
+        /\ last = [op |-> "init", r |-> 0]
 
 Skip == /\ placed < Len(mol) /\ ~mol[placed + 1].bm
         /\ placed' = placed + 1
         /\ UNCHANGED <<mol, fud, done, built, pos>>
-        /\ last' = [op |-> "skip", r |-> placed + 1, k |-> <<0, 0, 0>>]
+        /\ last' = [op |-> "skip", r |-> placed + 1]
 
 Place(k) ==
   /\ placed < Len(mol) /\ mol[placed + 1].bm
@@ -99,7 +103,7 @@ Place(k) ==
                                         THEN VAdd(VScale(Den, c), VScale(p, MatVec(RA(a[2]), TN(tyT, a[2]))))
                                         ELSE pos[a]]
         /\ placed' = r /\ done' = done \cup {r} /\ built' = Append(built, r)
-        /\ last' = [op |-> "place", r |-> r, k |-> k]
+        /\ last' = [op |-> "place", r |-> r]
   /\ UNCHANGED <<mol, fud>>
 
 Next == Skip \/ \E k \in Angles : Place(k)
@@ -109,11 +113,7 @@ Spec == Init /\ [][Next]_vars
 (* P-layer                                                            *)
 (* ------------------------------------------------------------------ *)
 Trits == {-1, 0, 1}
-\* orthogonal integer matrices, by brute force over all 3^9 matrices with entries -1, 0, 1 (evaluated once, see RotationLaws)
-OrthoBrute == { M \in { << <<a, b, c>>, <<d, e, f>>, <<g, h, i>> >> :
-                        a \in Trits, b \in Trits, c \in Trits, d \in Trits, e \in Trits, f \in Trits,
-                        g \in Trits, h \in Trits, i \in Trits } : AsTuple(MatMul(M, Transp(M))) = Id3 }
-\* the same set as signed permutation matrices (cheap to enumerate in every state)
+\* orthogonal integer matrices = signed permutation matrices (MC_Backmap checks this against brute force over all 3^9 matrices)
 Perms3 == { <<1, 2, 3>>, <<1, 3, 2>>, <<2, 1, 3>>, <<2, 3, 1>>, <<3, 1, 2>>, <<3, 2, 1>> }
 SignedPerm(s, sg) == << <<(IF s[1] = 1 THEN sg[1] ELSE 0), (IF s[1] = 2 THEN sg[1] ELSE 0), (IF s[1] = 3 THEN sg[1] ELSE 0)>>,
                         <<(IF s[2] = 1 THEN sg[2] ELSE 0), (IF s[2] = 2 THEN sg[2] ELSE 0), (IF s[2] = 3 THEN sg[2] ELSE 0)>>,
@@ -138,19 +138,26 @@ TurnedScaled == \A r \in done : \E R \in ProperLattice :
                   \A nm \in NameSet(TypeOf(r)) : PosN(r, nm) = VAdd(CentreN(r), VScale(P, MatVec(R, TN(TypeOf(r), nm))))
 
 \* consequences the user relies on, stated without any matrix: pair distances scaled, signed volumes (handedness) kept
-Scaled == \A r \in done : \A a, b \in NameSet(TypeOf(r)) :
-            /\ Dist2(PosN(r, a), PosN(r, b)) = P * P * Dist2(TN(TypeOf(r), a), TN(TypeOf(r), b))
-            /\ Dist2(PosN(r, a), CentreN(r)) = P * P * Dist2(TN(TypeOf(r), a), Zero)
-SameHanded == \A r \in done : \A a, b, c \in NameSet(TypeOf(r)) :
-                /\ Vol3(CentreN(r), PosN(r, a), PosN(r, b), PosN(r, c)) = P * P * P * Vol3(Zero, TN(TypeOf(r), a), TN(TypeOf(r), b), TN(TypeOf(r), c))
-                /\ \A d \in NameSet(TypeOf(r)) :
-                     Vol3(PosN(r, a), PosN(r, b), PosN(r, c), PosN(r, d)) =
-                       P * P * P * Vol3(TN(TypeOf(r), a), TN(TypeOf(r), b), TN(TypeOf(r), c), TN(TypeOf(r), d))
+\* (pairs, triples and quadruples of atoms are taken in name order: distances are symmetric, volumes antisymmetric)
+Nm(r, i) == Names(TypeOf(r))[i]
+Ix(r) == 1..NAt(TypeOf(r))
+Scaled == \A r \in done : \A i \in Ix(r) :
+            /\ Dist2(PosN(r, Nm(r, i)), CentreN(r)) = P * P * Dist2(TN(TypeOf(r), Nm(r, i)), Zero)
+            /\ \A j \in Ix(r) : i < j =>
+                 Dist2(PosN(r, Nm(r, i)), PosN(r, Nm(r, j))) = P * P * Dist2(TN(TypeOf(r), Nm(r, i)), TN(TypeOf(r), Nm(r, j)))
+SameHanded == \A r \in done : \A i, j, k \in Ix(r) : (i < j /\ j < k) =>
+                LET ty == TypeOf(r) a == Nm(r, i) b == Nm(r, j) c == Nm(r, k) IN
+                /\ Vol3(CentreN(r), PosN(r, a), PosN(r, b), PosN(r, c)) = P * P * P * Vol3(Zero, TN(ty, a), TN(ty, b), TN(ty, c))
+                /\ \A m \in Ix(r) : k < m =>
+                     Vol3(PosN(r, a), PosN(r, b), PosN(r, c), PosN(r, Nm(r, m))) =
+                       P * P * P * Vol3(TN(ty, a), TN(ty, b), TN(ty, c), TN(ty, Nm(r, m)))
 \* all copies of a residue type are congruent (same distances, same handedness)
-Congruent == \A r, s \in done : TypeOf(r) = TypeOf(s) =>
-               \A a, b, c, d \in NameSet(TypeOf(r)) :
-                 /\ Dist2(PosN(r, a), PosN(r, b)) = Dist2(PosN(s, a), PosN(s, b))
-                 /\ Vol3(PosN(r, a), PosN(r, b), PosN(r, c), PosN(r, d)) = Vol3(PosN(s, a), PosN(s, b), PosN(s, c), PosN(s, d))
+Congruent == \A r, s \in done : (r < s /\ TypeOf(r) = TypeOf(s)) =>
+               \A i, j \in Ix(r) : i < j =>
+                 /\ Dist2(PosN(r, Nm(r, i)), PosN(r, Nm(r, j))) = Dist2(PosN(s, Nm(r, i)), PosN(s, Nm(r, j)))
+                 /\ \A k, m \in Ix(r) : (j < k /\ k < m) =>
+                      Vol3(PosN(r, Nm(r, i)), PosN(r, Nm(r, j)), PosN(r, Nm(r, k)), PosN(r, Nm(r, m))) =
+                        Vol3(PosN(s, Nm(r, i)), PosN(s, Nm(r, j)), PosN(s, Nm(r, k)), PosN(s, Nm(r, m)))
 \* a virtual site (centre of its defining atoms in the template) is still where GROMACS constructs it after placement
 VSKept == \A r \in done : \A j \in 1..Len(TypeDefs[TypeOf(r)].vs) :
             LET v == TypeDefs[TypeOf(r)].vs[j] IN
@@ -169,7 +176,6 @@ Protocol == /\ done = {r \in 1..placed : mol[r].bm}
 \* facts about the rotation of the code: every angle triple gives a proper lattice rotation, all 24 are reachable
 RotationLaws == /\ \A k \in Angles : RotOf(k) \in ProperLattice
                 /\ Cardinality(ProperLattice) = 24
-                /\ OrthoBrute = OrthoLattice
                 /\ \A M \in OrthoLattice : AsTuple(MatMul(M, Transp(M))) = Id3 /\ Det3(M) \in {-1, 1}
 RotationLawsOnce == (placed = 0 /\ done = {}) => RotationLaws
 AllReachable == {RotOf(k) : k \in Angles} = ProperLattice
